@@ -148,7 +148,7 @@ theorem mul_ln10_one (t : Int8) :
 result is `ln10v − 2R − lnM M` up to `2·10^-57 + lam·2R`. -/
 theorem logTail_m1 (M : Int64) (res : decomposed192) (t : Int8) (ht : flag3 t)
     (hM0 : 11 ≤ M.toInt) (hM1 : M.toInt ≤ 99)
-    (hR : val res ≤ 1 / 10) (hre0 : -5400 ≤ res.exp.toInt) (hre1 : res.exp.toInt ≤ 5400) :
+    (hR : val res ≤ 1 / 10) (hre0 : -5930 ≤ res.exp.toInt) (hre1 : res.exp.toInt ≤ 5400) :
     ∃ (neg : Bool) (x : decomposed192) (t' : Int8),
       logTail (-1) M res t = .ok (neg, x, t') ∧
       |val x - (|ln10v - 2 * val res - lnM M|)| ≤ 2 / 10 ^ 57 + lam * (2 * val res) := by
@@ -252,14 +252,14 @@ arguments in `[0.1, 1)` with leading digits `M ≥ 11`. -/
 theorem log_code_m1 (d : decomposed192) (hd : d.sig.toNat ≠ 0)
     (he : -16000 ≤ d.exp.toInt ∧ d.exp.toInt ≤ 16000) :
     ∃ (neg : Bool) (x : decomposed192) (t : Int8) (e0 : Int) (M : Int64) (v v2 f R : ℚ),
-      Gen.decomposed192.log d = .ok (neg, x, t) ∧ flag3 t ∧ -5500 ≤ x.exp.toInt ∧ x.exp.toInt ≤ 5500 ∧
+      Gen.decomposed192.log d = .ok (neg, x, t) ∧ flag3 t ∧ -5930 ≤ x.exp.toInt ∧ x.exp.toInt ≤ 5500 ∧
       val d = v * (10 : ℚ) ^ e0 ∧ -16000 ≤ e0 ∧ e0 ≤ 16057 ∧ 10 ≤ M.toInt ∧ M.toInt ≤ 99 ∧
       (M.toInt : ℚ) ≤ 10 * v ∧ 10 * v < (M.toInt : ℚ) + 1 ∧
       1 ≤ v2 ∧ v2 ≤ 10 * v / (M.toInt : ℚ) ∧
       10 * v / (M.toInt : ℚ) * (1 - (if M.toInt = 10 then 0 else lam)) ≤ v2 ∧
       0 ≤ f ∧ f ≤ 1 / 20 ∧ (v2 - 1) / (v2 + 1) * (1 - lam) ≤ f ∧
       f ≤ (v2 - 1) / (v2 + 1) * ((1 + Root.eps) / (1 - lam)) ∧
-      Sj f 12 * (1 - lam) ^ 38 ≤ R ∧ R ≤ Sj f 12 ∧
+      Sj f 16 * (1 - lam) ^ 50 ≤ R ∧ R ≤ Sj f 16 ∧
       neg = decide (e0 < 0) ∧
       (e0 = -1 → 11 ≤ M.toInt →
         |val x - (|ln10v - 2 * R - lnM M|)| ≤ 2 / 10 ^ 57 + lam * (2 * R)) := by
@@ -294,7 +294,7 @@ theorem log_code_m1 (d : decomposed192) (hd : d.sig.toNat ≠ 0)
       _ ≤ 1 / 21 * (21 / 20) := mul_le_mul hz hfac hfac0 (by norm_num)
       _ = 1 / 20 := by norm_num
   have hRle : val res ≤ 1 / 10 := by
-    have := Sj_le_two_mul f hf0 hf20 12
+    have := Sj_le_two_mul f hf0 hf20 16
     linarith
   obtain ⟨neg, x, t', htail, ht', hneg, hx, hxe0, hxe1⟩ :=
     logTail_spec e0 M res t ht (by omega) hM0 hM1 hRle hre0 hre1
